@@ -839,37 +839,81 @@ package ast
 //@ ghost var $rB array[int]bool
 //@ ghost var $rF array[int]float64
 //@ ghost var $rAlloc int                // elements allocated by readers on behalf of length prefixes (C20)
-//@ modset wstream = $wN, $wK, $wS, $wI, $wB, $wF, $wErrN
+//@ ghost var $rawWErrN int               // failed Writer.Write calls so far (raw level, below the token abstraction)
+//@ modset wstream = $wN, $wK, $wS, $wI, $wB, $wF, $wErrN, $rawWErrN, $allocated, global TotalWrite, global WriteCount
 //@ ghost var $rErrN int                  // failed primitive reads so far (C12: none is ever swallowed by the catalogue reader)
 //@ modset rstream = $rPos, $rErrN, $consumed, $allocated, global TotalRead, global ReadCount
 //@ pure func wrap_u64(x int) int { return x % 18446744073709551616 }
 //@ pure func wrap_s64(x int) int { return (x + 9223372036854775808) % 18446744073709551616 - 9223372036854775808 }
 //@ macro func wPrefixKept(n0 int) bool { return forall j int :: 0 <= j && j < n0 ==> $wK[j] == old($wK[j]) && $wS[j] == old($wS[j]) && $wI[j] == old($wI[j]) && $wB[j] == old($wB[j]) && $wF[j] == old($wF[j]) }
 
-//@ extern func WriteStringToWriter(writer, s) (err)
+// The write primitives and WriteFull are CHECKED against their bodies (thirteenth round) for the failing-writer half of C12: a
+// primitive returns an error EXACTLY when one of the raw Writer.Write calls below it failed ($rawWErrN, counted by the assumed
+// contract of io.Writer.Write: a short write returns an error - T-IO), WriteFull returns nil only when everything was written, no
+// panic. The token a primitive contributes (kind, payload) is defined by its ghost_exit over the ENTRY state of the stream: the
+// raw tokens of the Write calls inside a primitive are replaced by the one typed token (what the bytes encode is T-IO).
+//@ func WriteFull(w, bytes) (n, err)
+//@   serves C12
+//@   requires w != nil
 //@   nopanic
-//@   ghost_exit $wS = ite(err == nil, store($wS, $wN, s), $wS)
-//@   ghost_exit $wK = ite(err == nil, store($wK, $wN, 1), $wK)
-//@   ghost_exit $wN = ite(err == nil, $wN + 1, $wN)
-//@   ghost_exit $wErrN = ite(err != nil, $wErrN + 1, $wErrN)
-//@ extern func WriteIntToWriter(w, i) (err)
+//@   modifies @wstream
+//@   invariant@1 nofailure: $rawWErrN == old($rawWErrN) && 0 <= written && written <= toWrite && toWrite == len(bytes)
+//@   decreases@1 toWrite - written
+//@   ensures[C12] surfaced: (err != nil) == ($rawWErrN > old($rawWErrN))
+//@   ensures[C12] complete: err == nil ==> n == len(bytes)
+//@   ensures 0 <= n && n <= len(bytes) && $rawWErrN >= old($rawWErrN)
+//@ func WriteStringToWriter(writer, s) (err)
+//@   serves C12
+//@   requires writer != nil
 //@   nopanic
-//@   ghost_exit $wI = ite(err == nil, store($wI, $wN, i), $wI)
-//@   ghost_exit $wK = ite(err == nil, store($wK, $wN, 2), $wK)
-//@   ghost_exit $wN = ite(err == nil, $wN + 1, $wN)
-//@   ghost_exit $wErrN = ite(err != nil, $wErrN + 1, $wErrN)
-//@ extern func WriteBoolToWriter(writer, aBoolean) (err)
+//@   modifies @wstream, $allocated
+//@   ensures[C12] surfaced: (err != nil) == ($rawWErrN > old($rawWErrN))
+//@   ghost_exit $wS = ite(err == nil, store(old($wS), old($wN), s), old($wS))
+//@   ghost_exit $wI = old($wI)
+//@   ghost_exit $wB = old($wB)
+//@   ghost_exit $wF = old($wF)
+//@   ghost_exit $wK = ite(err == nil, store(old($wK), old($wN), 1), old($wK))
+//@   ghost_exit $wN = ite(err == nil, old($wN) + 1, old($wN))
+//@   ghost_exit $wErrN = ite(err != nil, old($wErrN) + 1, old($wErrN))
+//@ func WriteIntToWriter(w, i) (err)
+//@   serves C12
+//@   requires w != nil
 //@   nopanic
-//@   ghost_exit $wB = ite(err == nil, store($wB, $wN, aBoolean), $wB)
-//@   ghost_exit $wK = ite(err == nil, store($wK, $wN, 3), $wK)
-//@   ghost_exit $wN = ite(err == nil, $wN + 1, $wN)
-//@   ghost_exit $wErrN = ite(err != nil, $wErrN + 1, $wErrN)
-//@ extern func WriteFloatToWriter(w, f) (err)
+//@   modifies @wstream, $allocated
+//@   ensures[C12] surfaced: (err != nil) == ($rawWErrN > old($rawWErrN))
+//@   ghost_exit $wI = ite(err == nil, store(old($wI), old($wN), i), old($wI))
+//@   ghost_exit $wS = old($wS)
+//@   ghost_exit $wB = old($wB)
+//@   ghost_exit $wF = old($wF)
+//@   ghost_exit $wK = ite(err == nil, store(old($wK), old($wN), 2), old($wK))
+//@   ghost_exit $wN = ite(err == nil, old($wN) + 1, old($wN))
+//@   ghost_exit $wErrN = ite(err != nil, old($wErrN) + 1, old($wErrN))
+//@ func WriteBoolToWriter(writer, aBoolean) (err)
+//@   serves C12
+//@   requires writer != nil
 //@   nopanic
-//@   ghost_exit $wF = ite(err == nil, store($wF, $wN, f), $wF)
-//@   ghost_exit $wK = ite(err == nil, store($wK, $wN, 4), $wK)
-//@   ghost_exit $wN = ite(err == nil, $wN + 1, $wN)
-//@   ghost_exit $wErrN = ite(err != nil, $wErrN + 1, $wErrN)
+//@   modifies @wstream, $allocated
+//@   ensures[C12] surfaced: (err != nil) == ($rawWErrN > old($rawWErrN))
+//@   ghost_exit $wB = ite(err == nil, store(old($wB), old($wN), aBoolean), old($wB))
+//@   ghost_exit $wS = old($wS)
+//@   ghost_exit $wI = old($wI)
+//@   ghost_exit $wF = old($wF)
+//@   ghost_exit $wK = ite(err == nil, store(old($wK), old($wN), 3), old($wK))
+//@   ghost_exit $wN = ite(err == nil, old($wN) + 1, old($wN))
+//@   ghost_exit $wErrN = ite(err != nil, old($wErrN) + 1, old($wErrN))
+//@ func WriteFloatToWriter(w, f) (err)
+//@   serves C12
+//@   requires w != nil
+//@   nopanic
+//@   modifies @wstream, $allocated
+//@   ensures[C12] surfaced: (err != nil) == ($rawWErrN > old($rawWErrN))
+//@   ghost_exit $wF = ite(err == nil, store(old($wF), old($wN), f), old($wF))
+//@   ghost_exit $wS = old($wS)
+//@   ghost_exit $wI = old($wI)
+//@   ghost_exit $wB = old($wB)
+//@   ghost_exit $wK = ite(err == nil, store(old($wK), old($wN), 4), old($wK))
+//@   ghost_exit $wN = ite(err == nil, old($wN) + 1, old($wN))
+//@   ghost_exit $wErrN = ite(err != nil, old($wErrN) + 1, old($wErrN))
 
 // ReadX: succeeds iff the next token is complete (truncation => error); a token of the expected kind decodes to its payload
 // T-IO
@@ -894,6 +938,7 @@ package ast
 //@   ghost_exit $wK = ite(err == nil, store($wK, $wN, 5), $wK)
 //@   ghost_exit $wN = ite(err == nil, $wN + 1, $wN)
 //@   ghost_exit $wErrN = ite(err != nil, $wErrN + 1, $wErrN)
+//@   ghost_exit $rawWErrN = ite(err != nil, $rawWErrN + 1, $rawWErrN)
 // readBytesFromReader (the chunked body reader shared by strings and constant value bytes) and ReadStringFromReader are CHECKED for
 // the safety clauses (C20) and carry the token-level abstraction as trusted clauses (the body is one token).
 // C20: what is allocated before it has been read is bounded by ONE chunk, whatever the length says (the amortised growth of
